@@ -134,6 +134,7 @@ static void fill_neighbour(char* p, size_t n, bool hostile, const char* like, si
 #ifndef SIMMEM_SANITIZER
 // ------------------------------------------------------------------ guarded arena
 static const size_t PG = 4096;
+static const size_t kHuge = 32u << 20;   // blocks above this are never filled or poisoned
 static const uintptr_t kBase = 0x600000000000ULL;
 struct Class { size_t np; size_t count; uintptr_t base; };
 static Class g_cls[3] = {{1, 4096, 0}, {5, 384, 0}, {20, 96, 0}};
@@ -220,7 +221,7 @@ static void on_segv(int sig, siginfo_t* si, void*) {
 void init() {
   size_t total = 0;
   for (int c = 0; c < 3; c++) total += g_cls[c].count * (g_cls[c].np + 1) * PG + PG;
-  size_t big = 1ull << 30;
+  size_t big = 64ull << 30;   // virtual only (NORESERVE): big blocks, incl. the rare > 4 GiB chunks of C16
   size_t all = PG /*trap*/ + total + big;
   void* m = mmap((void*)kBase, all, PROT_NONE, MAP_PRIVATE | MAP_ANONYMOUS | MAP_NORESERVE | MAP_FIXED_NOREPLACE, -1, 0);
   if (m != (void*)kBase) { perror("simmem: fixed arena mmap"); _exit(2); }
@@ -350,7 +351,7 @@ static void* do_alloc(Provider p, size_t n, Place want, const char* like, size_t
     fill_neighbour(ptr - a, a, g_env.hostile, like, like_len);
     fill_neighbour(ptr + n, b2, g_env.hostile, like, like_len);
   }
-  if (p != CALLER) { fill_bytes(ptr, n, g_env.fill, h); g_ctr[kFillCtr[g_env.fill]]++; }
+  if (p != CALLER && n <= kHuge) { fill_bytes(ptr, n, g_env.fill, h); g_ctr[kFillCtr[g_env.fill]]++; }   // huge blocks stay untouched (fresh zero pages)
   g_ctr[C_ALLOC]++;
   if (pl == PL_END && post == 0) g_ctr[C_GUARD_AFTER]++;
   if (pl == PL_START) g_ctr[C_GUARD_BEFORE]++;
@@ -380,7 +381,7 @@ static Slot* lookup(const void* ptr, int& c, uint32_t& idx, bool& interior) {
 }
 
 static void release_slot(Slot* s, int c, uint32_t idx) {
-  memset(s->ptr, 0xDD, s->size);
+  if (s->size <= kHuge) memset(s->ptr, 0xDD, s->size);
   g_ctr[C_FREE_POISON]++;
   s->state = S_FREED;
   g_live[s->prov]--;
